@@ -2142,3 +2142,40 @@ def fold_result_copies(fn):
             again = True
             break
     return done
+
+
+def fold_try_else_copy(fn):
+    """`try: t = E / except X: <H> / else: u = t` with the local t read
+    nowhere else: the copy cannot raise, so it may as well be the last
+    statement of the try body, and `t = E; u = t` is `u = E`.  The statement
+    becomes `try: u = E / except X: <H>`.  Works in place on a copy; returns
+    the copy (or fn when nothing applies)."""
+    loads, stores = {}, {}
+    for n in ast.walk(fn):
+        if isinstance(n, ast.Name):
+            d = loads if isinstance(n.ctx, ast.Load) else stores
+            d[n.id] = d.get(n.id, 0) + 1
+    out = acopy(fn)
+    changed = 0
+    for n in ast.walk(out):
+        if not (isinstance(n, ast.Try) and not n.finalbody and len(
+                n.orelse) == 1 and n.body):
+            continue
+        a, b = n.body[-1], n.orelse[0]
+        if isinstance(a, ast.Assign) and len(a.targets) == 1 and isinstance(
+                a.targets[0], ast.Name) and isinstance(b, ast.Assign) and \
+                len(b.targets) == 1 and isinstance(
+                    b.targets[0], ast.Name) and isinstance(
+                        b.value, ast.Name) and \
+                b.value.id == a.targets[0].id:
+            t = a.targets[0].id
+            if loads.get(t, 0) == 1 and stores.get(t, 0) == 1:
+                a.targets[0].id = b.targets[0].id
+                n.orelse = []
+                changed += 1
+    if not changed:
+        return fn
+    ast.fix_missing_locations(out)
+    set_parents(out)
+    out._parent = getattr(fn, "_parent", None)
+    return out
